@@ -57,6 +57,7 @@ XNot(a) == [e |-> "not", a |-> a, go |-> FALSE]
 XLen(a) == [e |-> "len", a |-> a]
 XIdx(a, i) == [e |-> "idx", a |-> a, i |-> i]
 XCall(f, args) == [e |-> "call", f |-> f, args |-> args]         \* f: name of a macro / macro-valued variable / itea
+XCallSp(f, args) == [e |-> "call", f |-> f, args |-> args, sp |-> TRUE]   \* f(a, s...): the last argument is spread over a variadic parameter
 XDef(v, d) == [e |-> "default", v |-> v, d |-> d]
 XMap(ps) == [e |-> "map", ps |-> ps]                             \* map[string]int{"k": v, ...}: ps = <<[k |-> bytes, v |-> int]>>
 \* template nodes.  ek: the end tag is written with its keyword ({% end if %}); bodies are sequences of nodes
@@ -67,6 +68,7 @@ NAssign(v, op, x) == [k |-> "assign", v |-> v, op |-> op, x |-> x]           \* 
 NExpr(x) == [k |-> "expr", x |-> x]                              \* {% M(a) %}
 NComment(s) == [k |-> "comment", s |-> s]                       \* {# s #}: renders nothing
 NRaw(s, ek) == [k |-> "raw", s |-> s, ek |-> ek]                 \* {% raw %}s{% end raw %}: renders s as it is
+NBlock(ss) == [k |-> "block", ss |-> ss]                         \* {%% s1; s2 %%}: simple statements (show, var, assignment, call) in one tag
 NBreak == [k |-> "break"]
 NContinue == [k |-> "continue"]
 \* init: <<>> or <<simple statement>>; els: <<>> = no else; elif: els is <<an if node>> written {% else if ... %}
@@ -89,6 +91,7 @@ NUsing(stmt, mac, ps, paren, typ, body, ek) ==
 TmParam(n, t) == [n |-> n, t |-> t]
 \* the prelude that precedes every generated tree: variables of every type and three macros -
 \* M reads n (by reference), P has a parameter, K changes n (a side effect that shows whether a call was evaluated);
+\* W is variadic;
 \* c is the counter that bounds the generated {% for cond %} / {% for %} loops (they increment it first thing in their body)
 TmPrelude(id) ==
   IF id = "P1"
@@ -96,7 +99,9 @@ TmPrelude(id) ==
          NVar("l", XSl("int", <<XI(3), XI(4)>>), FALSE), NVar("q", XSl("string", <<XS(<<120>>), XS(<<121>>)>>), FALSE),
          NMacro("M", <<>>, FALSE, "", <<NText(<<109>>), NShow(<<XV("n")>>, TRUE)>>, FALSE),
          NMacro("P", <<TmParam("p", "string")>>, FALSE, "", <<NText(<<112>>), NShow(<<XV("p")>>, TRUE), NText(<<113>>)>>, FALSE),
-         NMacro("K", <<>>, FALSE, "", <<NAssign("n", "=", XBin("+", XV("n"), XI(1))), NText(<<107>>)>>, TRUE)>>
+         NMacro("K", <<>>, FALSE, "", <<NAssign("n", "=", XBin("+", XV("n"), XI(1))), NText(<<107>>)>>, TRUE),
+         NMacro("W", <<TmParam("xs", "...int")>>, FALSE, "", <<NText(<<119>>), NShow(<<XLen(XV("xs"))>>, TRUE),
+                                                                  NForIn("v", XV("xs"), <<NShow(<<XV("v")>>, TRUE)>>, <<>>, FALSE)>>, FALSE)>>
   ELSE <<>>
 \* ... and the epilogue that follows it: the variables that the tree may have changed are shown
 TmEpilogue(id) == IF id = "P1" THEN <<NShow(<<XV("n"), XV("s"), XV("b")>>, FALSE)>> ELSE <<>>
@@ -113,8 +118,14 @@ TmWhole(id, tree) == TmPrelude(id) \o tree \o TmEpilogue(id)
      extends      index:  {% extends "l" %} D {% macro Body %}tree epilogue{% end %}
                   l:      x{{ Body() }}y{{ Side() default "d" }}{{ Und(1, "a") default "e" }}
      extendsside  the same with {% macro Side %}s{% end %} at the end of index
-     render       index:  a{{ render "p" }}b{{ render "p" }}{{ render "q" default "d" }}      p:  W        (q does not exist) *)
-TmLayouts == {"single", "import", "importas", "extends", "extendsside", "render"}
+     render       index:  a{{ render "p" }}b{{ render "p" }}{{ render "q" default "d" }}      p:  W        (q does not exist)
+     import3      index:  {% import "a" %}x{{ Top() }}     a:  {% import "f" %}{% macro Top %}t{{ Main() }}{{ V }}{% end %}     f as above
+     extimport    index:  {% extends "l2" %}{% import "f" %}{% macro Body %}b{{ Main() }}{% end %}     l2:  x{{ Body() }}y     f as above
+     extparam     index:  {% extends "l3" %} D {% macro Body(k int, p string) %}tree epilogue{{ k }}{{ p }}{% end %}
+                  l3:     x{{ Body(4, "z") }}y{{ Body(5, "w") default "d" }}
+     renderin     index:  {% for i := 0; i < 2; i++ %}{{ render "p" }}{% end %}{% macro M %}m{{ render "p" }}{% end %}{{ M() }}
+                          {% show itea; using %}u{{ render "p" }}{% end %}{% switch 1 %}{% case 1 %}{{ render "p" }}{% end %}      p:  W *)
+TmLayouts == {"single", "import", "importas", "extends", "extendsside", "render", "import3", "extimport", "extparam", "renderin"}
 TmCallShow(f) == NShow(<<XCall(f, <<>>)>>, TRUE)
 TmEquiv(lay, id, tree) ==
   LET D == TmPrelude(id)  body == tree \o TmEpilogue(id) IN
@@ -127,6 +138,21 @@ TmEquiv(lay, id, tree) ==
            \o <<NText(<<120>>), TmCallShow("Body"), NText(<<121>>), IF lay = "extendsside" THEN TmCallShow("Side") ELSE NText(<<100>>), NText(<<101>>)>>
     [] lay = "render" ->
          <<NMacro("R", <<>>, FALSE, "", D \o body, FALSE), NText(<<97>>), TmCallShow("R"), NText(<<98>>), TmCallShow("R"), NText(<<100>>)>>
+    [] lay = "import3" ->
+         D \o <<NVar("V", XI(7), FALSE), NMacro("Main", <<>>, FALSE, "", body, FALSE),
+                NMacro("Top", <<>>, FALSE, "", <<NText(<<116>>), TmCallShow("Main"), NShow(<<XV("V")>>, TRUE)>>, FALSE), NText(<<120>>), TmCallShow("Top")>>
+    [] lay = "extimport" ->
+         D \o <<NVar("V", XI(7), FALSE), NMacro("Main", <<>>, FALSE, "", body, FALSE),
+                NMacro("Body", <<>>, FALSE, "", <<NText(<<98>>), TmCallShow("Main")>>, FALSE), NText(<<120>>), TmCallShow("Body"), NText(<<121>>)>>
+    [] lay = "extparam" ->
+         D \o <<NMacro("Body", <<TmParam("k", "int"), TmParam("p", "string")>>, FALSE, "", body \o <<NShow(<<XV("k")>>, TRUE), NShow(<<XV("p")>>, TRUE)>>, FALSE),
+                NText(<<120>>), NShow(<<XCall("Body", <<XI(4), XS(<<122>>)>>)>>, TRUE), NText(<<121>>), NShow(<<XCall("Body", <<XI(5), XS(<<119>>)>>)>>, TRUE)>>
+    [] lay = "renderin" ->
+         <<NMacro("R", <<>>, FALSE, "", D \o body, FALSE),
+           NFor3("i", XI(0), XCmp("<", XV("i"), XI(2)), NAssign("i", "++", XI(0)), <<TmCallShow("R")>>, FALSE),
+           NMacro("M", <<>>, FALSE, "", <<NText(<<109>>), TmCallShow("R")>>, FALSE), TmCallShow("M"),
+           NUsing(NShow(<<XV("itea")>>, FALSE), FALSE, <<>>, FALSE, "", <<NText(<<117>>), TmCallShow("R")>>, FALSE),
+           NSwitch(<<>>, <<XI(1)>>, <<NClause(FALSE, <<XI(1)>>, <<TmCallShow("R")>>, FALSE)>>, FALSE)>>
 
 (* =====================================================================================
    PART 2 - values, heap, environments
@@ -263,7 +289,12 @@ TmEval(x, env, st) ==
          IF x.f \notin TmNames \/ env[x.f] = 0 THEN EE("undef", st) ELSE
          LET clo == st.heap[env[x.f]]
              rl == TmEvalList(x.args, 1, env, st, <<>>) IN
-         IF rl.err # "" THEN rl ELSE TmCallClo(clo, rl.v, rl.st)
+         IF rl.err # "" THEN rl
+         ELSE IF clo.t = "macro" /\ clo.ps # <<>> /\ clo.ps[Len(clo.ps)].t = "...int" /\ ~("sp" \in DOMAIN x)
+              THEN LET np == Len(clo.ps) IN                          \* the arguments from the variadic parameter on become its slice
+                   IF Len(rl.v) < np - 1 THEN EE("undef", rl.st)
+                   ELSE TmCallClo(clo, SubSeq(rl.v, 1, np - 1) \o <<VSlice(SubSeq(rl.v, np, Len(rl.v)))>>, rl.st)
+         ELSE TmCallClo(clo, rl.v, rl.st)
     [] x.e = "default" ->
          LET g == TmGlobalIdx(st.glob, x.v) IN
          IF x.v \in TmNames /\ env[x.v] # 0 THEN EE("undef", st)                      \* a declared local on the left side is not valid
@@ -293,6 +324,7 @@ TmInit(init, env, st) == IF init = <<>> THEN SR("next", env, st) ELSE TmExec(ini
 
 TmExec(nd, env, st) ==
   CASE nd.k = "text" -> SR("next", env, [st EXCEPT !.out = @ \o nd.s])
+    [] nd.k = "block" -> TmExecBody(nd.ss, 1, env, st)              \* the statements are in the enclosing scope
     [] nd.k = "comment" -> SR("next", env, st)
     [] nd.k = "raw" -> SR("next", env, [st EXCEPT !.out = @ \o nd.s])
     [] nd.k = "show" -> TmShowAll(nd.xs, 1, env, st)
@@ -439,6 +471,7 @@ TmRun(tree, glob, mode) ==
    PART 4 - the printer: a tree as template source (no white space between tags; text is letters)
    ===================================================================================== *)
 RECURSIVE TmPPairs(_, _)
+RECURSIVE TmPStmts(_, _)
 RECURSIVE TmPx(_), TmPxList(_, _), TmPBody(_, _), TmPNode(_), TmPIf(_, _), TmPStmt(_), TmPClauses(_, _), TmPParams(_, _), TmPOp(_)
 TmAtomic(x) == x.e \in {"int", "str", "bool", "var", "call", "len", "idx", "slice", "map"}
 TmPOp(x) == IF TmAtomic(x) THEN TmPx(x) ELSE <<40>> \o TmPx(x) \o <<41>>
@@ -455,7 +488,7 @@ TmPx(x) ==
     [] x.e = "not" -> (IF x.go THEN TtS("!") ELSE TtS("not ")) \o TmPOp(x.a)
     [] x.e = "len" -> TtS("len(") \o TmPx(x.a) \o <<41>>
     [] x.e = "idx" -> TmPOp(x.a) \o <<91>> \o TmPx(x.i) \o <<93>>
-    [] x.e = "call" -> TtS(x.f) \o <<40>> \o TmPxList(x.args, 1) \o <<41>>
+    [] x.e = "call" -> TtS(x.f) \o <<40>> \o TmPxList(x.args, 1) \o (IF "sp" \in DOMAIN x THEN TtS("...") ELSE <<>>) \o <<41>>
     [] x.e = "default" -> TtS(x.v) \o TtS(" default ") \o TmPOp(x.d)
 TmPPairs(ps, i) == IF i > Len(ps) THEN <<>> ELSE (IF i > 1 THEN TtS(", ") ELSE <<>>) \o <<34>> \o ps[i].k \o <<34>> \o TtS(": ") \o TmDec(ps[i].v) \o TmPPairs(ps, i + 1)
 TmPxList(xs, i) == IF i > Len(xs) THEN <<>> ELSE (IF i > 1 THEN TtS(", ") ELSE <<>>) \o TmPx(xs[i]) \o TmPxList(xs, i + 1)
@@ -471,6 +504,7 @@ TmPStmt(nd) ==
     [] nd.k = "assign" -> IF nd.op \in {"++", "--"} THEN TtS(nd.v) \o TtS(nd.op) ELSE TtS(nd.v) \o <<32>> \o TtS(nd.op) \o <<32>> \o TmPx(nd.x)
     [] nd.k = "expr" -> TmPx(nd.x)
     [] nd.k \in {"break", "continue"} -> TtS(nd.k)
+TmPStmts(ss, i) == IF i > Len(ss) THEN <<>> ELSE (IF i > 1 THEN TtS("; ") ELSE <<>>) \o TmPStmt(ss[i]) \o TmPStmts(ss, i + 1)
 TmPInit(init) == IF init = <<>> THEN <<>> ELSE TmPStmt(init[1]) \o TtS("; ")
 TmPBody(b, i) == IF i > Len(b) THEN <<>> ELSE TmPNode(b[i]) \o TmPBody(b, i + 1)
 TmPElse(els) == IF els = <<>> THEN <<>> ELSE TtS("{% else %}") \o TmPBody(els, 1)
@@ -483,6 +517,7 @@ TmPClauses(cls, j) ==
        \o TmPBody(cls[j].body, 1) \o (IF cls[j].ft THEN TtS("{% fallthrough %}") ELSE <<>>) \o TmPClauses(cls, j + 1)
 TmPNode(nd) ==
   CASE nd.k = "text" -> nd.s
+    [] nd.k = "block" -> TtS("{%% ") \o TmPStmts(nd.ss, 1) \o TtS(" %%}")
     [] nd.k = "comment" -> TtS("{# ") \o nd.s \o TtS(" #}")
     [] nd.k = "raw" -> TtS("{% raw %}") \o nd.s \o TmPEnd(nd.ek, "raw")
     [] nd.k = "while" -> TmTag(TtS("for ") \o TmPx(nd.c)) \o TmPBody(nd.body, 1) \o TmPEnd(nd.ek, "for")
@@ -529,6 +564,22 @@ TmFrame(lay, id, ext) ==
          <<TmFile("index", TtS("a{{ render ") \o TmQ("p", ext) \o TtS(" }}b{{ render ") \o TmQ("p", ext) \o TtS(" }}{{ render ") \o TmQ("q", ext)
                            \o TtS(" default ") \o <<34, 100, 34>> \o TtS(" }}"), <<>>, FALSE),
            TmFile("p", D, E, TRUE)>>
+    [] lay = "import3" ->
+         <<TmFile("index", TtS("{% import ") \o TmQ("a", ext) \o TtS(" %}x{{ Top() }}"), <<>>, FALSE),
+           TmFile("a", TtS("{% import ") \o TmQ("f", ext) \o TtS(" %}{% macro Top %}t{{ Main() }}{{ V }}{% end %}"), <<>>, FALSE),
+           TmFile("f", D \o TtS("{% var V = 7 %}{% macro Main %}"), E \o TtS("{% end %}"), TRUE)>>
+    [] lay = "extimport" ->
+         <<TmFile("index", TtS("{% extends ") \o TmQ("l", ext) \o TtS(" %}{% import ") \o TmQ("f", ext) \o TtS(" %}{% macro Body %}b{{ Main() }}{% end %}"), <<>>, FALSE),
+           TmFile("l", TtS("x{{ Body() }}y"), <<>>, FALSE),
+           TmFile("f", D \o TtS("{% var V = 7 %}{% macro Main %}"), E \o TtS("{% end %}"), TRUE)>>
+    [] lay = "extparam" ->
+         <<TmFile("index", TtS("{% extends ") \o TmQ("l", ext) \o TtS(" %}") \o D \o TtS("{% macro Body(k int, p string) %}"), E \o TtS("{{ k }}{{ p }}{% end %}"), TRUE),
+           TmFile("l", TtS("x{{ Body(4, ") \o <<34, 122, 34>> \o TtS(") }}y{{ Body(5, ") \o <<34, 119, 34>> \o TtS(") default ") \o <<34, 100, 34>> \o TtS(" }}"), <<>>, FALSE)>>
+    [] lay = "renderin" ->
+         <<TmFile("index", TtS("{% for i := 0; i < 2; i++ %}{{ render ") \o TmQ("p", ext) \o TtS(" }}{% end %}{% macro M %}m{{ render ") \o TmQ("p", ext)
+                           \o TtS(" }}{% end %}{{ M() }}{% show itea; using %}u{{ render ") \o TmQ("p", ext) \o TtS(" }}{% end %}{% switch 1 %}{% case 1 %}{{ render ")
+                           \o TmQ("p", ext) \o TtS(" }}{% end %}"), <<>>, FALSE),
+           TmFile("p", D, E, TRUE)>>
 
 \* ---- measures used by the generator and the judge
 RECURSIVE TmSize(_, _), TmNodeSize(_), TmKindsOf(_, _), TmNodeKinds(_)
@@ -556,8 +607,8 @@ TmTreeKinds(tree) == TmKindsOf(<<tree>>, 1)
 \* encloses; inrange: a range encloses
 RECURSIVE TmPatBody(_, _, _), TmPatNode(_, _)
 TmPatNode(nd, c) ==
-  CASE nd.k = "break" -> IF c.brk = "range" /\ c.outer THEN {"break-in-range"} ELSE {}
-    [] nd.k = "continue" -> IF c.loop = "for3" /\ c.inrange THEN {"continue-in-for"} ELSE {}
+  CASE nd.k = "break" -> IF c.brk = "" THEN {"misplaced-break"} ELSE IF c.brk = "range" /\ c.outer THEN {"break-in-range"} ELSE {}
+    [] nd.k = "continue" -> IF c.loop = "" THEN {"misplaced-continue"} ELSE IF c.loop = "for3" /\ c.inrange THEN {"continue-in-for"} ELSE {}
     [] nd.k = "if" -> TmPatBody(nd.a, 1, c) \cup TmPatBody(nd.els, 1, c)
     [] nd.k \in {"for3", "while", "forever"} -> (IF nd.k = "forever" THEN {"for-without-condition"} ELSE {})
                                                  \cup TmPatBody(nd.body, 1, [c EXCEPT !.brk = "for3", !.loop = "for3", !.outer = TRUE])
@@ -572,5 +623,8 @@ TmPatNode(nd, c) ==
                          \cup TmPatBody(nd.body, 1, [c EXCEPT !.brk = "", !.loop = "", !.typed = @ \/ nd.typ # ""])
     [] OTHER -> {}
 TmPatBody(b, i, c) == IF i > Len(b) THEN {} ELSE TmPatNode(b[i], c) \cup TmPatBody(b, i + 1, c)
+\* a break outside every loop / switch / select of its function, or a continue outside every loop of its function (the body of a
+\* macro or of a using is a function of its own): the template must be refused at build time
+TmMisplacedJump(tree) == {"misplaced-break", "misplaced-continue"} \cap TmPatBody(tree, 1, [brk |-> "", loop |-> "", outer |-> FALSE, inrange |-> FALSE, typed |-> FALSE]) # {}
 TmNestedLoopPatterns(tree) == TmPatBody(tree, 1, [brk |-> "", loop |-> "", outer |-> FALSE, inrange |-> FALSE, typed |-> FALSE])
 =============================================================================
